@@ -5,6 +5,8 @@ PROPS["C15"] = dict(
                "revm::db::states::CacheAccount::{selfdestruct, touch_empty_eip161, newly_created, touch_create_pre_eip161, change} "
                "(crates/revm/src/db/states/cache_account.rs) and the closures they pass to Option::map / Iterator::map: every path",
                "revm::db::State::{storage (+ closure), load_cache_account} (crates/revm/src/db/states/state.rs): every path",
+               "<revm::db::CacheDB<ExtDB> as DatabaseCommit>::commit (crates/revm/src/db/in_memory_db.rs): one iteration of the loop over committed accounts (back edges cut), "
+               "from an arbitrary cached (info, account_state, storage)",
                "revm::db::AccountStatus::{is_not_modified, was_destroyed, is_storage_known, is_modified_and_not_destroyed, on_created, on_changed, on_selfdestructed, "
                "on_touched_empty_post_eip161, on_touched_created_pre_eip161} (crates/revm/src/db/states/account_status.rs): all 8 statuses x both flag values"],
     bounds="one committed account from an ARBITRARY cached (account, status) pair - the entry values of self.account and self.status are free variables, so every "
@@ -12,7 +14,7 @@ PROPS["C15"] = dict(
            "has_state_clear); State::storage: (slot cached?, storage known?); load_cache_account: (cached?, use_preloaded_bundle, in bundle?, database answer "
            "present?, empty?); status machine: 8 statuses x 2 flags, exhaustively",
     outside="the loop over accounts in apply_evm_state and the transition / bundle bookkeeping behind it (C16-C19), increment_balance / drain_balance "
-            "(account_info_change is generic over a closure), CacheDB's DatabaseCommit (a loop over accounts and slots), code_by_hash, block-hash pruning; the contents "
+            "(account_info_change is generic over a closure), code_by_hash, block-hash pruning; the contents "
             "of storage maps (extend / collect are events, std semantics assumed); equality of execution results between State and CacheDB",
     assumptions=["memory cells for self.account / self.status; Option::take / map / as_ref, HashMap::iter / collect / extend, Default, Clone are modelled by "
                  "provenance tags (+6000 info of, +7000 storage of, +5000 Boolean test of, +2000 present values of); every closure handed to map is checked to be the "
@@ -28,17 +30,24 @@ PROPS["C15"] = dict(
                H("c15::c15_on_touched_created_pre_eip161", timeout=300, mem_gb=2, bounds="the 6 statuses for which the function is defined x flag"),
                H("c15::c15_twin_must_fail", expect_fail=True, timeout=300, mem_gb=2, bounds="vacuity twin")],
     jobs=[dict(name="e3::block_state_dispatch_and_reads", fn=_jobs_c15.run_block_state_kernel),
-          dict(name="e3::cache_account_operations", fn=_jobs_c15.run_cache_account_ops)],
+          dict(name="e3::cache_account_operations", fn=_jobs_c15.run_cache_account_ops),
+          dict(name="e3::cachedb_commit_step", fn=_jobs_c15.run_cachedb_commit)],
 )
+# the same kernels carry C20's "plus any changes committed through them" for the two caching layers
+PROPS["C20"]["jobs"] = PROPS["C20"]["jobs"] + [dict(name="e3::cache_account_operations", fn=_jobs_c15.run_cache_account_ops),
+                                               dict(name="e3::cachedb_commit_step", fn=_jobs_c15.run_cachedb_commit),
+                                               dict(name="e3::block_state_dispatch_and_reads", fn=_jobs_c15.run_block_state_kernel)]
+PROPS["C20"]["functions"] = PROPS["C20"]["functions"] + ["<CacheDB<ExtDB> as DatabaseCommit>::commit (one iteration of the account loop); the block-state kernels of C15 "
+                                                         "(apply_account_state, CacheAccount operations, State::storage, load_cache_account)"]
 CLAIMS["C15"] = dict(
     text="The single-account step of committing EVM output into the block-state database is decided from an arbitrary cached state (one inductive step, so any "
          "commit history for that account): which CacheAccount operation the account's flags select and with which arguments (only changed slots, the account's own "
          "info); for each operation what it leaves in the cache (account present/removed, which info and storage), that the new status is the status machine's answer "
          "for the previous status and the right flag, that a `no change` answer really changes nothing, and that the transition records exactly the previous info and "
          "status; how State::storage chooses between cached slot, zero (only when the status says the storage is known) and the database; how a database answer is "
-         "classified on first load. All of that by provenance-flow symbolic execution of the MIR bodies with z3+cvc5 over every path. The status machine itself is "
+         "classified on first load; and one iteration of CacheDB::commit (untouched / self-destructed / created / changed, with `storage known empty` preserved across later changes). All of that by provenance-flow symbolic execution of the MIR bodies with z3+cvc5 over every path. The status machine itself is "
          "decided exhaustively by CBMC against soundness conditions for `storage known` / `destroyed` / `modified`.",
-    note="Partial: per-account kernels only. The loop over accounts, transitions -> bundle (C16-C19), increment/drain balance, CacheDB::commit, code reads and the "
+    note="Partial: per-account kernels only. The loop over accounts, transitions -> bundle (C16-C19), increment/drain balance, code reads and the "
          "State-vs-CacheDB execution equivalence are outside; storage map contents are not modelled (which map is extended by which slots is).",
     technique="MIR provenance-flow symbolic execution + SMT path queries (z3+cvc5) for apply_account_state, five CacheAccount operations, State::storage, load_cache_account; "
               "Kani/CBMC exhaustive check of the AccountStatus transition functions; native replay on the real types",
